@@ -299,7 +299,7 @@ def run(run):
         # ---- sequences over all initial states ----------------------------------
         subsets = [frozenset(c) for r in range(6)
                    for c in itertools.combinations(FIELDS, r)]
-        n_seq = 40 if thorough else 4
+        n_seq = 150 if thorough else 5
         k = 0
         for present in subsets:
             for rep in range(n_seq):
